@@ -43,6 +43,7 @@ var evalOnce sync.Once
 func evalRoutines() {
 	for i := 0; i < runtime.NumCPU(); i++ {
 		go func() {
+			simYield("render.evalRoutines.start", uint64(i))
 			var i int
 			var p v3.Vec
 			for r := range evalProcessCh {
